@@ -157,6 +157,14 @@ G_Term(cls, m, n, b, seed, depth, mode) ==
        \* upper-orientation Cholesky operators nested in structures whose Cholesky is assembled from the children's factors
        [] cls = "KronCholU" -> Op_Kron(<<G_Term("CholU", 2, 2, b1, seed + 3, 0, 1), G_Term("Dense", n \div 2, n \div 2, b1, seed + 5, 0, 1)>>)
        [] cls = "BlockDiagCholU" -> Op_BlockDiag(G_Term("CholU", n \div 2, n \div 2, b1 \o <<2>>, seed + 3, 0, 1), -3)
+       \* a batch of mixed definiteness: member 0 is PSD but singular (rank 2: its Cholesky needs jitter), member 1 is positive definite.
+       \* The factor of the definite member must not be perturbed because of the other one (batch shape is always (2))
+       [] cls = "MixedDef" -> LET R == T_Fill(<<n, 2>>, seed + 3, -2, 2) S0 == T_MatMul(R, T_Transpose(R))
+                              IN Op_Dense(T_Cat(<<T_Unsqueeze(S0, 0), T_Unsqueeze(G_PdDense(n, <<>>, seed + 5), 0)>>, 0))
+       \* operators whose base hands its argument through (IdentityLinearOperator._matmul returns the right-hand side itself): any in-place
+       \* post-processing of "the base's product" would write into the caller's tensor
+       [] cls = "ConstMulI" -> Op_ConstMul(Op_Identity(n, b1), G_Pos(b1, seed + 3))
+       [] cls = "BlockDiagConstMulI" -> Op_BlockDiag(Op_ConstMul(Op_Identity(n \div 2, b1 \o <<2>>), G_Pos(b1 \o <<2>>, seed + 3)), -3)
        [] cls = "SumZ" -> Op_Sum(<<G_Term("Dense", m, n, b1, seed + 3, 0, 0), Op_Zero(b2 \o <<m, n>>)>>)
        [] cls = "AddedDiag" ->
             Op_AddedDiag(IF d1 <= 0 THEN G_Term(G_Pick(IF mode = 1 THEN <<"Dense", "Toeplitz", "Chol">> ELSE G_NonDiagLeaf, seed), n, n, b1, seed + 3, 0, mode)
@@ -225,6 +233,14 @@ G_Term(cls, m, n, b, seed, depth, mode) ==
                 lv == G_Small(b \o <<m, p>>, seed + 2)
                 rv == IF mode = 1 THEN lv ELSE G_Small(b \o <<n, p>>, seed + 4)
             IN Op_Interp(G_Child(km, kn, b, seed + 3, d1, mode), li, lv, ri, rv)
+       \* interpolation of a root-form base with the SAME indices but DIFFERENT weights on the two sides (an off-diagonal block of a
+       \* symmetric interpolated kernel): the diagonal fast path may not treat it as symmetric
+       [] cls = "InterpRootSameIdx" ->
+            LET km == 3 p == 2
+                li == G_InterpIdx(n, p, km, b, seed)
+                lv == G_Small(b \o <<n, p>>, seed + 2)
+                rv == G_Small(b \o <<n, p>>, seed + 4)
+            IN Op_Interp(Op_RootT(G_Small(b \o <<km, 2>>, seed + 6)), li, lv, li, rv)
        [] cls = "Masked" ->
             LET m0 == m + 1 + (seed % 2) n0 == IF m = n THEN m0 ELSE n + 1
                 rm == G_Mask(m0, m, seed) cm == IF m = n THEN rm ELSE G_Mask(n0, n, seed + 1)
@@ -242,11 +258,11 @@ G_Term(cls, m, n, b, seed, depth, mode) ==
 G_AllClasses == <<"Dense", "User", "Diag", "ConstDiag", "Identity", "Zero", "Toeplitz", "Tri", "Chol", "CholU", "SumZ", "Root",
                   "LowRankRoot", "Kron", "Kron3", "KronTri", "KronDiag", "KronAddedDiag", "SumKron", "AddedDiag",
                   "LRRAddedDiag", "Sum", "Sum3", "PsdSum", "Matmul", "Mul", "ConstMul", "BlockDiag", "BlockInter",
-                  "SumBatch", "BatchRepeat", "Cat", "Interp", "Masked", "Perm", "TransPerm", "Kernel", "SumInterp", "MatmulTri">>
-G_SquareOnly == {"MatmulTri", "LRRAddedDiagI", "AddedDiagI", "SumI", "Diag", "ConstDiag", "Identity", "Toeplitz", "Tri", "Chol", "CholU", "Root", "LowRankRoot", "Kron3", "KronTri",
+                  "SumBatch", "BatchRepeat", "Cat", "Interp", "Masked", "Perm", "TransPerm", "Kernel", "SumInterp", "MatmulTri", "InterpRootSameIdx">>
+G_SquareOnly == {"ConstMulI", "BlockDiagConstMulI", "InterpRootSameIdx", "MatmulTri", "LRRAddedDiagI", "AddedDiagI", "SumI", "Diag", "ConstDiag", "Identity", "Toeplitz", "Tri", "Chol", "CholU", "Root", "LowRankRoot", "Kron3", "KronTri",
                  "KronDiag", "KronAddedDiag", "SumKron", "AddedDiag", "LRRAddedDiag", "PsdSum", "Mul", "BlockDiag",
                  "BlockInter", "Perm", "TransPerm"}
-G_LeafClasses == {"AddedDiagRootConst", "AddedDiagBig", "DenseBig", "KronCholU", "BlockDiagCholU", "SumInterp", "MatmulTri", "LRRAddedDiagI", "AddedDiagI", "SumI", "Dense", "User", "Diag", "ConstDiag", "Identity", "Zero", "Toeplitz", "Chol", "CholU", "SumZ", "LowRankRoot", "KronTri",
+G_LeafClasses == {"ConstMulI", "BlockDiagConstMulI", "InterpRootSameIdx", "MixedDef", "AddedDiagRootConst", "AddedDiagBig", "DenseBig", "KronCholU", "BlockDiagCholU", "SumInterp", "MatmulTri", "LRRAddedDiagI", "AddedDiagI", "SumI", "Dense", "User", "Diag", "ConstDiag", "Identity", "Zero", "Toeplitz", "Chol", "CholU", "SumZ", "LowRankRoot", "KronTri",
                   "KronDiag", "SumKron", "LRRAddedDiag", "Perm", "TransPerm", "Kernel"}
 \* classes that only exist for PSD arguments
 G_PsdOnly == {"Chol", "CholU", "PsdSum", "Mul"}
